@@ -126,7 +126,7 @@ class Chip(object):
         self.responsive = True
         # system areas live at chip-dependent addresses (a controller must
         # read them from the chip it is talking to)
-        k = (x * 5 + y * 3) % 7
+        k = 0 if getattr(sim, "uniform_sys", False) else (x * 5 + y * 3) % 7
         self.vcpu_base = 0xe5007000 + 0x1000 * k
         self.sdram_sys = 0x60e00000 + 0x400 * k
         self.rtr_copy = 0x60e10000 + 0x8000 * k
@@ -232,8 +232,12 @@ class Fill(object):
 
 class SimMachine(object):
     def __init__(self, repo, width=2, height=2, dead=(), buffer_size=256,
-                 version=133, version_string=b"SC&MP/SpiNNaker\0"):
+                 version=133, version_string=b"SC&MP/SpiNNaker\0",
+                 uniform_sys=False):
         self.repo = repo
+        # True: every chip has its system areas at the same addresses (as
+        # real boards usually do); False: chip-dependent addresses
+        self.uniform_sys = uniform_sys
         self.w, self.h = width, height
         self.p2p_w, self.p2p_h = width, height
         self.buffer_size = buffer_size
